@@ -23,6 +23,10 @@ type c06Pod struct {
 	Restarts int    `json:"restarts,omitempty"` // highest container restart count
 	Reason   string `json:"reason,omitempty"`   // waiting reason
 	StartAgo int    `json:"start_ago_s,omitempty"`
+	// Shape of a waiting pod: "" = its only container waits with Reason; "second" = a first container waits with the
+	// harmless reason PodInitializing and a second one with Reason; "init" = the regular container waits with
+	// PodInitializing and an init container with Reason
+	Shape string `json:"shape,omitempty"`
 }
 
 type c06Cfg struct {
@@ -122,6 +126,7 @@ func c06PodVariants(ap, af int32, slow int, thorough bool) []c06Pod {
 			out = append(out, c06Pod{Kind: "waiting", Reason: rs, StartAgo: st})
 		}
 	}
+	out = append(out, c06Pod{Kind: "waiting", Reason: "ErrImagePull", StartAgo: 61, Shape: "second"}, c06Pod{Kind: "waiting", Reason: "ErrImagePull", StartAgo: 61, Shape: "init"})
 	out = append(out, c06Pod{Kind: "outdated", Restarts: int(af) + 3}, c06Pod{Kind: "terminating", Restarts: int(af) + 3})
 	return out
 }
@@ -221,6 +226,18 @@ func c06Objects(c c06Case, now time.Time) (*v1.ExtendedDaemonSet, *v1.ExtendedDa
 			p.Status.Phase = corev1.PodPending
 		}
 		p.Status.ContainerStatuses = []corev1.ContainerStatus{cst}
+		benign := corev1.ContainerStatus{Name: "main", State: corev1.ContainerState{Waiting: &corev1.ContainerStateWaiting{Reason: "PodInitializing"}}}
+		switch pv.Shape {
+		case "second":
+			cst.Name = "side"
+			p.Spec.Containers = append(p.Spec.Containers, corev1.Container{Name: "side", Image: "B"})
+			p.Status.ContainerStatuses = []corev1.ContainerStatus{benign, cst}
+		case "init":
+			cst.Name = "init"
+			p.Spec.InitContainers = []corev1.Container{{Name: "init", Image: "B"}}
+			p.Status.ContainerStatuses = []corev1.ContainerStatus{benign}
+			p.Status.InitContainerStatuses = []corev1.ContainerStatus{cst}
+		}
 		p.Status.Conditions = []corev1.PodCondition{{Type: corev1.PodReady, Status: ready, LastTransitionTime: st}}
 		switch pv.Kind {
 		case "outdated":
